@@ -12,6 +12,7 @@ import (
 	"os"
 	"os/exec"
 	"sort"
+	"strconv"
 	"strings"
 	"time"
 
@@ -275,6 +276,17 @@ type world struct {
 }
 
 func regimeAlts(regime string) func(off int64, avail, want int) []int {
+	if strings.HasPrefix(regime, "tail") {
+		// the FIRST read leaves k bytes of the reader's buffer free although more data is pending (a transport
+		// that hands over slightly less than asked); every later read returns all there is
+		k, _ := strconv.Atoi(regime[4:])
+		return func(off int64, avail, want int) []int {
+			if off == 0 && want-k >= 1 && avail >= want-k {
+				return []int{want - k}
+			}
+			return nil
+		}
+	}
 	switch regime {
 	case "1":
 		return func(off int64, avail, want int) []int { return []int{1} }
@@ -724,6 +736,20 @@ func work(ctx *runner.Ctx) {
 		cases = append(cases, cs{A: []Op{{K: kind, N: n}, {K: "b"}}, Regime: "4096", P: 0, F: fb})
 		if !quick || i == 0 {
 			cases = append(cases, cs{A: []Op{{K: kind, N: n}, {K: "l"}}, Regime: "all", Transport: "pipe", P: 0, F: fb})
+		}
+	}
+	// the read side's twin of the straddling family below: the first Read leaves k bytes free at the end of the 1 MiB
+	// read buffer, a data item ends j bytes before the bytes read so far, and the next item (every kind) straddles
+	// both the bytes read so far and the end of the buffer (seed C11-9: Fill moving the unread bytes to the front
+	// only when the buffer is completely full)
+	for ki, k := range []int{1, 2, 3, 5, 8, 13, 15, 17, 64} {
+		for ji, j := range []int{0, 1, 3, 7, 15} {
+			for ii, it := range []Op{{K: "l"}, {K: "w"}, {K: "h"}, {K: "d", N: 17}, {K: "s", N: 3}, {K: "b"}} {
+				if quick && (ki+ji+ii)%3 != 0 {
+					continue
+				}
+				cases = append(cases, cs{A: []Op{{K: "d", N: 1<<20 - k - 4 - j}, it, {K: "l"}, {K: "w"}}, Regime: fmt.Sprintf("tail%d", k), P: 0, F: fb})
+			}
 		}
 	}
 	straddle := append(append([]Op{}, fixed...), Op{K: "s", N: 3}, Op{K: "z", N: 3}, Op{K: "d", N: 17}, Op{K: "s", N: 0})
